@@ -395,6 +395,9 @@ def k1_names(ctx):
         for t in itertools.product(alpha, repeat=n):
             names.append(''.join(t))
     names += ['r#loop', 'r#Type', 'r#HTTPServer', 'r#', 'r#_x', 'rr#a', 'r#r#loop']      # raw-identifier spellings
+    # letters of the Latin-1 supplement (the model follows Unicode case mapping for U+00C0..U+00FF)
+    names += ['démarrer', 'écoute', 'Écluse', 'ÉtatFinal', 'ÀvalOuvert', 'prüfen_größe', 'ß', 'ß_x', 'öffne_tür', 'a×b', '÷x', 'HTTPÉtat',
+              'étatFinal', 'ÿ', 'ÿz_ÿ', 'Éa', 'aÉ', 'ÉÉa', 'aÉÉ', '_é', 'é_', 'é__é', 'É_É', 'ÞÐ', 'þ_ð', 'Æsir', 'æsir_1', 'x÷', 'ÀÈÌ', 'àèì']
     names += smgen.STATE_POOL + smgen.SUPER_POOL + smgen.EVENT_POOL + smgen.NAME_POOL + corpus.NON_SNAKE + \
         ['HTTPRequest', 'XMLParser', 'IOError', 'parseXML', 'sendHTTPRequest', 'ABCDef', 'SCREAMING_SNAKE', 'enable_2fa', 'x_y_z1']
     names = sorted(set(names))
